@@ -26,10 +26,6 @@ class EvaluatorContext(ast_nodes.EvalContext):
         if addr in self._values:
             return self._values[addr]
 
-        # Check for a cycle.
-        if addr in self.seen:
-            raise RuntimeError(
-                f'Cycle detected for {addr}:\n- ' + '\n- '.join(self.seen))
         self.seen.append(addr)
 
         value = self._values[addr] = self.evaluator.evaluate(addr, None)
@@ -44,6 +40,8 @@ class Evaluator:
         self.namespace = namespace \
             if namespace is not None else xl.FUNCTIONS.copy()
         self.cache_count = 0
+        # Addresses of the formula cells whose evaluation is in progress.
+        self._evaluating = []
 
     def _get_context(self, ref):
         return EvaluatorContext(self, ref)
@@ -88,13 +86,26 @@ class Evaluator:
         #    (Note: Range nodes will automatically evaluate all their
         #           dependencies.)
         context = context if context is not None else self._get_context(addr)
+        # Check for a cycle. Every cell is evaluated in a context of its own,
+        # so the cells in progress are tracked on the evaluator.
+        if addr in self._evaluating:
+            raise RuntimeError(
+                f'Cycle detected for {addr}:\n- '
+                + '\n- '.join(self._evaluating))
+        self._evaluating.append(addr)
         try:
             value = cell.formula.ast.eval(context)
+        except RuntimeError:
+            # Already reported by a precedent cell (or a cycle); wrapping it
+            # again at every level doubles the message each time.
+            raise
         except Exception as err:
             raise RuntimeError(
                 f"Problem evaluating cell {addr} formula "
                 f"{cell.formula.formula}: {repr(err)}"
             ).with_traceback(sys.exc_info()[2])
+        finally:
+            self._evaluating.pop()
 
         # 4. Update the cell value.
         #    Note for later: If an array is returned, we should distribute the
